@@ -15,17 +15,20 @@ def anchored():
     from cherrypy import _cperror, _cplogging, _cprequest
     from cherrypy.lib import httputil, static, cptools, sessions
     HM = httputil.HeaderMap
+
+    def fn(x):
+        return getattr(x, '__func__', x)          # classmethod / staticmethod object or plain function
     out = [
-        ('httputil.HeaderMap.encode', HM.__dict__['encode'].__func__),
-        ('httputil.HeaderMap.encode_header_item', HM.__dict__['encode_header_item'].__func__),
-        ('httputil.HeaderMap.encode_header_items', HM.__dict__['encode_header_items'].__func__),
+        ('httputil.HeaderMap.encode', fn(HM.__dict__['encode'])),
+        ('httputil.HeaderMap.encode_header_item', fn(HM.__dict__['encode_header_item'])),
+        ('httputil.HeaderMap.encode_header_items', fn(HM.__dict__['encode_header_items'])),
         ('httputil.HeaderMap.output', HM.output),
         ('httputil.decode_TEXT', httputil.decode_TEXT),
         ('httputil.decode_TEXT_maybe', httputil.decode_TEXT_maybe),
         ('httputil.valid_status', httputil.valid_status),
         ('httputil.SanitizedHost.__new__', httputil.SanitizedHost.__new__),
-        ('httputil.SanitizedHost._sanitize', httputil.SanitizedHost.__dict__['_sanitize'].__func__),
-        ('httputil.CaseInsensitiveDict.transform_key', httputil.CaseInsensitiveDict.__dict__['transform_key'].__func__),
+        ('httputil.SanitizedHost._sanitize', fn(httputil.SanitizedHost.__dict__['_sanitize'])),
+        ('httputil.CaseInsensitiveDict.transform_key', fn(httputil.CaseInsensitiveDict.__dict__['transform_key'])),
         ('_cprequest.Response.finalize', _cprequest.Response.finalize),
         ('_cprequest.Request.process_headers', _cprequest.Request.process_headers),
         ('_cperror.get_error_page', _cperror.get_error_page),
